@@ -48,6 +48,9 @@ type Prop struct {
 	// classifies the situation (violation or nil = harness trouble) and the worker ends.
 	StallLimit time.Duration
 	OnStall    func(c *Ctx) *Violation
+	// Parts: a property decided in several worlds. Each part is run with its own budget and
+	// isolation; the parent merges everything into one evidence file. Run is unused then.
+	Parts []*Prop
 }
 
 type foundViolation struct {
@@ -59,6 +62,7 @@ type foundViolation struct {
 	Count      int      `json:"count"`
 	Reproduced bool     `json:"reproduced"`
 	OrigLen    int      `json:"orig_len"`
+	Part       int      `json:"part"`
 }
 
 type shardResult struct {
@@ -126,6 +130,11 @@ func Main(props map[string]*Prop) int {
 	tier := os.Getenv("VERIF_TIER")
 	if tier == "" {
 		tier = "quick"
+	}
+	if pi := os.Getenv("VERIF_PART"); pi != "" && len(p.Parts) > 0 {
+		if i, err := strconv.Atoi(pi); err == nil && i >= 0 && i < len(p.Parts) {
+			p = p.Parts[i]
+		}
 	}
 	switch role {
 	case "nsinit":
@@ -246,10 +255,34 @@ func spawn(p *Prop, role string, extra []string, out string) *exec.Cmd {
 	return cmd
 }
 
-func parent(p *Prop, tier string) int {
+func parent(top *Prop, tier string) int {
 	start := time.Now()
-	b := budget(p, tier)
+	parts := top.Parts
+	if len(parts) == 0 {
+		parts = []*Prop{top}
+	}
 	seed := baseSeed(tier)
+	var results []*shardResult
+	harnessTrouble := false
+	var b Budget
+	for pi, p := range parts {
+		rs, trouble, bb := runPart(top, p, pi, tier, seed)
+		results = append(results, rs...)
+		harnessTrouble = harnessTrouble || trouble
+		b = bb
+	}
+	if len(results) == 0 {
+		return 2
+	}
+	code := report(top, tier, seed, b, results, time.Since(start))
+	if harnessTrouble && code == 0 {
+		return 2
+	}
+	return code
+}
+
+func runPart(top, p *Prop, pi int, tier string, seed uint64) ([]*shardResult, bool, Budget) {
+	b := budget(p, tier)
 	dir := os.Getenv("VERIF_WORKDIR")
 	if dir == "" {
 		dir = filepath.Join(os.TempDir(), fmt.Sprintf("verif-work-%d", os.Getpid()))
@@ -262,15 +295,17 @@ func parent(p *Prop, tier string) int {
 	var procs []proc
 	runtime.LockOSThread() // Pdeathsig is per-thread
 	for i := 0; i < b.Shards; i++ {
-		wd := filepath.Join(dir, fmt.Sprintf("w%d", i))
+		wd := filepath.Join(dir, fmt.Sprintf("p%dw%d", pi, i))
 		os.MkdirAll(wd, 0755)
+		os.Chmod(wd, 0777)
 		cmd := spawn(p, "worker", []string{
+			fmt.Sprintf("VERIF_PART=%d", pi), "VERIF_PROP=" + top.ID,
 			fmt.Sprintf("VERIF_SHARD=%d", i), fmt.Sprintf("VERIF_NSHARDS=%d", b.Shards),
 			"VERIF_WDIR=" + wd, fmt.Sprintf("VERIF_SEED=%d", seed), "VERIF_TIER=" + tier,
 		}, filepath.Join(wd, "log"))
 		if err := cmd.Start(); err != nil {
 			fmt.Fprintln(os.Stderr, "verif: spawn:", err)
-			return 2
+			return nil, true, b
 		}
 		procs = append(procs, proc{cmd, i})
 	}
@@ -285,7 +320,7 @@ func parent(p *Prop, tier string) int {
 	var results []*shardResult
 	for _, pr := range procs {
 		err := pr.cmd.Wait()
-		wd := filepath.Join(dir, fmt.Sprintf("w%d", pr.i))
+		wd := filepath.Join(dir, fmt.Sprintf("p%dw%d", pi, pr.i))
 		res := &shardResult{}
 		data, rerr := os.ReadFile(filepath.Join(wd, "result.json"))
 		if rerr != nil || json.Unmarshal(data, res) != nil {
@@ -301,14 +336,7 @@ func parent(p *Prop, tier string) int {
 		results = append(results, res)
 	}
 	timer.Stop()
-	if len(results) == 0 {
-		return 2
-	}
-	code := report(p, tier, seed, b, results, time.Since(start))
-	if harnessTrouble && code == 0 {
-		return 2
-	}
-	return code
+	return results, harnessTrouble, b
 }
 
 func tail(s string, n int) string {
@@ -467,6 +495,7 @@ func worker(p *Prop, tier string) (code int) {
 				continue
 			}
 			fv := &foundViolation{Violation: *v, Seed: s, Count: 1}
+			fv.Part, _ = strconv.Atoi(os.Getenv("VERIF_PART"))
 			bySig[sig] = fv
 			res.Violations = append(res.Violations, fv)
 			seq := c.Src.Seq()
@@ -525,6 +554,7 @@ type ReplayFile struct {
 	Scenario   []string `json:"scenario"`
 	Reproduced bool     `json:"reproduced"`
 	OrigLen    int      `json:"original_sequence_length"`
+	Part       int      `json:"part"`
 }
 
 type knownFinding struct {
@@ -620,7 +650,7 @@ func report(p *Prop, tier string, seed uint64, b Budget, results []*shardResult,
 		name := fmt.Sprintf("%s-%d-%s.json", p.ID, v.Seed, sanitize(v.Kind+"-"+v.Site))
 		path := filepath.Join(verifDir(), "replays", name)
 		rf := ReplayFile{Property: p.ID, World: p.Worlds, Seed: v.Seed, Tier: tier, Signature: sig, Kind: v.Kind, Site: v.Site,
-			Violation: v.Msg, Seq: v.Seq, Draws: v.Draws, Scenario: v.Scenario, Reproduced: v.Reproduced, OrigLen: v.OrigLen}
+			Violation: v.Msg, Seq: v.Seq, Draws: v.Draws, Scenario: v.Scenario, Reproduced: v.Reproduced, OrigLen: v.OrigLen, Part: v.Part}
 		data, _ := json.MarshalIndent(rf, "", " ")
 		os.WriteFile(path, data, 0644)
 		fmt.Printf("violation: %s: %s (seed %d, %d draws after shrinking from %d, seen %d times)\n", sig, v.Msg, v.Seed, len(v.Seq), v.OrigLen, v.Count)
@@ -703,7 +733,19 @@ func replayParent(p *Prop, tier, file string) int {
 	}
 	wd := filepath.Join(dir, "replay")
 	os.MkdirAll(wd, 0755)
-	cmd := spawn(p, "replay", []string{"VERIF_WDIR=" + wd, "VERIF_REPLAY=" + abs, "VERIF_TIER=" + tier}, filepath.Join(wd, "log"))
+	os.Chmod(wd, 0777)
+	part := 0
+	if data, err := os.ReadFile(abs); err == nil {
+		var rf ReplayFile
+		if json.Unmarshal(data, &rf) == nil {
+			part = rf.Part
+		}
+	}
+	top := p
+	if len(p.Parts) > 0 && part < len(p.Parts) {
+		p = p.Parts[part]
+	}
+	cmd := spawn(p, "replay", []string{"VERIF_WDIR=" + wd, "VERIF_REPLAY=" + abs, "VERIF_TIER=" + tier, fmt.Sprintf("VERIF_PART=%d", part), "VERIF_PROP=" + top.ID}, filepath.Join(wd, "log"))
 	err := cmd.Run()
 	logb, _ := os.ReadFile(filepath.Join(wd, "log"))
 	os.Stdout.Write(logb)
